@@ -311,6 +311,50 @@ def run_misuse(ses):
             m.get()
         tests.append(('%s get() after an unbounded solve' % kind, t_unbounded))
 
+    # results of a FAILED model cannot be read, whichever interface failed to solve it (linear and conic programs)
+    def solvers():
+        out = [('default', None)]
+        for nm in ('ort', 'eco'):
+            try:
+                import importlib
+                out.append((nm, importlib.import_module('rsome.%s_solver' % nm)))
+            except Exception:
+                pass
+        return out
+    for sname, solver in solvers():
+        for front in ('lp', 'ro', 'dro'):
+            for prob in ('infeasible', 'unbounded', 'infeasible-soc'):
+                if prob == 'infeasible-soc' and (sname != 'eco' or front == 'lp'):
+                    continue
+                for read in ('model.get()', 'x.get()', 'x()'):
+                    def t_failed_iface(solver=solver, front=front, prob=prob, read=read):
+                        from rsome import lp
+                        m = {'lp': lp.Model, 'ro': ro.Model, 'dro': (lambda: dro.Model(2))}[front]()
+                        x = m.dvar(2)
+                        if prob == 'infeasible':
+                            m.min(x.sum())
+                            m.st(x >= 1, x <= 0)
+                        elif prob == 'unbounded':
+                            m.min(x.sum())
+                            m.st(x <= 0)
+                        else:
+                            m.min(x.sum())
+                            m.st(rso.norm(x, 2) <= 1, x[0] >= 2)
+                        with quiet():
+                            if solver is None:
+                                m.solve(display=False)
+                            else:
+                                m.solve(solver, display=False)
+                        if read == 'model.get()':
+                            m.get()
+                        elif read == 'x.get()':
+                            x.get()
+                        else:
+                            if front == 'lp':
+                                return 'skip'
+                            x()
+                    tests.append(('%s model, %s, solved through the %s interface: %s' % (front, prob, sname, read), t_failed_iface))
+
     # every front end x every way of combining two expressions: operands of two different models must be rejected
     def mkf(front):
         from rsome import lp, socp, gcp
